@@ -244,8 +244,12 @@ func runC09Sources(c *mon.Ctx) {
 			"half reads":            func() io.Reader { return iotest.HalfReader(bytes.NewReader(b)) },
 			"data with EOF":         func() io.Reader { return iotest.DataErrReader(bytes.NewReader(b)) },
 			"bufio 4096":            func() io.Reader { return bufio.NewReaderSize(bytes.NewReader(b), 4096) },
-			"records of 1000":       func() io.Reader { return &fragReader{chunkReader: chunkReader{b: b, chunks: r.Partition(len(b), 1000)}} },
-			"records of 70000":      func() io.Reader { return &fragReader{chunkReader: chunkReader{b: b, chunks: r.Partition(len(b), 70_000)}} },
+			"records of 1000": func() io.Reader {
+				return &fragReader{chunkReader: chunkReader{b: b, chunks: r.Partition(len(b), 1000)}}
+			},
+			"records of 70000": func() io.Reader {
+				return &fragReader{chunkReader: chunkReader{b: b, chunks: r.Partition(len(b), 70_000)}}
+			},
 		}
 		for name, mk := range readers {
 			var got *smf.SMF
